@@ -1015,3 +1015,230 @@ Proof.
   apply closest_level_thr_switch; try (vm_compute; split; congruence); try (vm_compute; congruence).
   intros j Hj. assert (j = 0) as -> by lia. vm_compute. split; reflexivity.
 Qed.
+
+(* ---- requests in another SRS *)
+Lemma bbox_of_points_contains x y rest px py :
+  In (px, py) ((x, y) :: rest) ->
+  let '(a, b, c, d) := bbox_of_points x y rest in a <= px <= c /\ b <= py <= d.
+Proof.
+  induction rest as [|[qx qy] r IH]; cbn [bbox_of_points].
+  - intros [H|[]]. inversion H. lia.
+  - intros H. destruct (bbox_of_points x y r) as [[[a b] c] d].
+    destruct H as [H|[H|H]].
+    + specialize (IH (or_introl H)). lia.
+    + inversion H. lia.
+    + specialize (IH (or_intror H)). lia.
+Qed.
+
+(* the source rectangle contains the image of every transformed outline point ... *)
+Lemma calculate_bbox_contains pts b px py :
+  calculate_bbox pts = Some b -> In (px, py) pts ->
+  let '(x0, y0, x1, y1) := b in x0 <= px <= x1 /\ y0 <= py <= y1.
+Proof.
+  destruct pts as [|[x y] rest]; [discriminate|]. cbn [calculate_bbox]. intros H Hin. inversion H.
+  exact (bbox_of_points_contains x y rest px py Hin).
+Qed.
+
+(* ... and is the smallest such rectangle: each of its four edges passes through one of the points *)
+Lemma bbox_of_points_attained x y rest :
+  let '(a, b, c, d) := bbox_of_points x y rest in
+  (exists q, In q ((x, y) :: rest) /\ fst q = a) /\ (exists q, In q ((x, y) :: rest) /\ snd q = b) /\
+  (exists q, In q ((x, y) :: rest) /\ fst q = c) /\ (exists q, In q ((x, y) :: rest) /\ snd q = d).
+Proof.
+  induction rest as [|[qx qy] r IH]; cbn [bbox_of_points].
+  - repeat split; exists (x, y); split; try (left; reflexivity); reflexivity.
+  - destruct (bbox_of_points x y r) as [[[a b] c] d]. destruct IH as (Ha & Hb & Hc & Hd).
+    assert (Hw : forall (P : Z * Z -> Prop), (exists q, In q ((x, y) :: r) /\ P q) -> exists q, In q ((x, y) :: (qx, qy) :: r) /\ P q).
+    { intros P (q & [Hq|Hq] & HP); exists q; (split; [|exact HP]); [left; exact Hq|right; right; exact Hq]. }
+    repeat split.
+    + destruct (Z.min_spec a qx) as [[_ ->]|[_ ->]]; [apply Hw; exact Ha|exists (qx, qy); split; [right; left; reflexivity|reflexivity]].
+    + destruct (Z.min_spec b qy) as [[_ ->]|[_ ->]]; [apply Hw; exact Hb|exists (qx, qy); split; [right; left; reflexivity|reflexivity]].
+    + destruct (Z.max_spec c qx) as [[_ ->]|[_ ->]]; [exists (qx, qy); split; [right; left; reflexivity|reflexivity]|apply Hw; exact Hc].
+    + destruct (Z.max_spec d qy) as [[_ ->]|[_ ->]]; [exists (qx, qy); split; [right; left; reflexivity|reflexivity]|apply Hw; exact Hd].
+Qed.
+
+Lemma calculate_bbox_attained pts b :
+  calculate_bbox pts = Some b ->
+  let '(x0, y0, x1, y1) := b in
+  (exists q, In q pts /\ fst q = x0) /\ (exists q, In q pts /\ snd q = y0) /\
+  (exists q, In q pts /\ fst q = x1) /\ (exists q, In q pts /\ snd q = y1).
+Proof.
+  destruct pts as [|[x y] rest]; [discriminate|]. cbn [calculate_bbox]. intros H. inversion H.
+  exact (bbox_of_points_attained x y rest).
+Qed.
+
+(* a request in another SRS: whatever the transformation did to the outline points (tpts arbitrary), every transformed
+   point that lies at least 1/10 pixel inside the source rectangle has its tile in the list reported for that rectangle
+   at the chosen level.  (Not covered: the parts of the curved outline between the sampled points.) *)
+Lemma affected_tiles_cover_foreign g tpts sx sy b l px py :
+  wf g -> decreasing_res g -> 0 < levels g -> 0 < sx -> 0 < sy -> 0 < sf_d g <= sf_n g ->
+  affected_level_foreign g tpts sx sy = Some (b, l) -> In (px, py) tpts ->
+  let '(bx0, by0, bx1, by1) := b in
+  (bx0 < bx1 /\ by0 < by1) ->
+  bx0 + inset g l <= px <= bx1 - inset g l -> by0 + inset g l <= py <= by1 - inset g l ->
+  exists ab n m ts, affected_level_tiles g b l = Affected ab n m ts /\
+    let '(tx, ty) := tile g px py l in In (limit_tile g tx ty l) ts.
+Proof.
+  intros Hwf Hdec Hlev Hsx Hsy Hsf Ha Hin. unfold affected_level_foreign in Ha.
+  destruct (calculate_bbox tpts) as [b'|]; [|discriminate].
+  destruct (affected_level g b' sx sy) as [l'|] eqn:El; [|discriminate]. inversion Ha; subst b' l'. clear Ha.
+  pose proof (affected_level_spec g b sx sy l) as Hs. pose proof (get_resolution_spec b sx sy Hsx Hsy) as Hr.
+  destruct b as [[[bx0 by0] bx1] by1]. intros [Hbx Hby] Hx Hy.
+  destruct (get_resolution (bx0, by0, bx1, by1) sx sy) as [rn rd]. destruct Hr as (Hrd & Hr1 & Hr2 & Hr3).
+  apply Hs in El. destruct El as (_ & _ & ->).
+  assert (Hrn : 0 < rn) by (destruct Hr3; nia).
+  pose proof (closest_level_spec g rn rd Hdec Hlev Hrd Hrn Hsf) as [Hk _].
+  assert (Hv : valid_level g (closest_level g rn rd) = true) by (unfold valid_level; lia).
+  exact (affected_tiles_cover g (bx0, by0, bx1, by1) _ px py Hwf Hv Hx Hy).
+Qed.
+
+(* outline points: 4 * steps points, among them the four corners (for a proper rectangle) *)
+Lemma envelope_points_length b n : 4 < n -> Z.of_nat (length (envelope_points b n)) = 4 * env_steps n.
+Proof.
+  intros Hn. destruct b as [[[x0 y0] x1] y1]. unfold envelope_points. cbv zeta.
+  assert (1 <= env_steps n).
+  { unfold env_steps. replace (n <=? 4) with false by (symmetry; lia). unfold cdiv. lia. }
+  rewrite !app_length, !map_length, !rev_length, !zrange_length. lia.
+Qed.
+
+Lemma envelope_points_corners x0 y0 x1 y1 n :
+  4 < n -> x0 <= x1 -> y0 <= y1 ->
+  let pts := envelope_points (x0, y0, x1, y1) n in
+  In (x0, y0) pts /\ In (x1, y0) pts /\ In (x1, y1) pts /\ In (x0, y1) pts.
+Proof.
+  intros Hn Hx Hy. unfold envelope_points. cbv zeta.
+  assert (Hk : 1 <= env_steps n).
+  { unfold env_steps. replace (n <=? 4) with false by (symmetry; lia). unfold cdiv. lia. }
+  set (k := env_steps n) in *.
+  rewrite Z.min_l, Z.max_r, Z.min_l, Z.max_r by lia.
+  assert (H0 : In 0 (zrange 0 k)) by (apply zrange_In; lia).
+  assert (H1 : In k (zrange 0 k)) by (apply zrange_In; lia).
+  assert (Ek : k * (x1 - x0) / k = x1 - x0) by (rewrite Z.mul_comm; apply Z.div_mul; lia).
+  repeat split.
+  - apply in_or_app. left. apply in_map_iff. exists 0. split; [f_equal; rewrite Z.mul_0_l, Z.div_0_l by lia; lia|exact H0].
+  - apply in_or_app. left. apply in_map_iff. exists k. split; [f_equal; lia|exact H1].
+  - apply in_or_app. right. apply in_or_app. right. apply in_or_app. left. apply in_map_iff. exists k.
+    split; [f_equal; lia|apply in_rev; rewrite rev_involutive; exact H1].
+  - apply in_or_app. right. apply in_or_app. right. apply in_or_app. left. apply in_map_iff. exists 0.
+    split; [f_equal; rewrite Z.mul_0_l, Z.div_0_l by lia; lia|apply in_rev; rewrite rev_involutive; exact H0].
+Qed.
+
+(* the 16 default outline points of the rectangle (0, 0, 80, 40): 4 steps per edge *)
+Example ex_envelope_points :
+  envelope_points (0, 0, 80, 40) 16 =
+  [(0, 0); (20, 0); (40, 0); (60, 0); (80, 0); (80, 10); (80, 20); (80, 30);
+   (80, 40); (60, 40); (40, 40); (20, 40); (0, 40); (0, 30); (0, 20); (0, 10)].
+Proof. vm_compute. reflexivity. Qed.
+(* a bulging southern edge: the source rectangle reaches down to the lowest transformed point, not only to the corners *)
+Example ex_foreign :
+  affected_level_foreign ex_grid [(0, 100); (500, 40); (1000, 100); (1000, 600); (0, 600)] 10 5 = Some ((0, 40, 1000, 600), 0).
+Proof. vm_compute. reflexivity. Qed.
+
+(* ---- closest_level with any number of thresholds *)
+(* `if threshold and prev_l_res > threshold >= l_res` *)
+Definition thr_hit (th : option Z) (prev l_res : Z) : bool :=
+  match th with Some t => negb (t =? 0) && (t <? prev) && (l_res <=? t) | None => false end.
+(* `threshold = thresholds.pop() if thresholds else None` *)
+Definition thr_pop (ths : list Z) : option Z * list Z :=
+  match ths with [] => (None, []) | t' :: r' => (Some t', r') end.
+(* the threshold state after the loop has passed the first n of the levels rs without returning: a threshold that is hit
+   is consumed (one per level), the others stay; also returns the previous level resolution *)
+Fixpoint thr_pass (rs : list Z) (prev : Z) (th : option Z) (ths : list Z) (n : nat) : option Z * list Z * Z :=
+  match n, rs with
+  | S n', r :: rest =>
+    let '(th', ths') := if thr_hit th prev r then thr_pop ths else (th, ths) in thr_pass rest r th' ths' n'
+  | _, _ => (th, ths, prev)
+  end.
+
+(* as long as the requested resolution is finer than the level resolutions (res < r_j) the loop does not return *)
+Lemma closest_thr_loop_pass g rn rd : 0 < rd -> forall n rs lv prev th ths tr last,
+  res_tail g lv rs -> (n <= length rs)%nat ->
+  (forall j, lv <= j < lv + Z.of_nat n -> rn < res_at g j * rd) ->
+  exists tr' last',
+    closest_thr_loop g rn rd rs lv prev th ths tr last =
+    let '(th', ths', prev') := thr_pass rs prev th ths n in
+    closest_thr_loop g rn rd (skipn n rs) (lv + Z.of_nat n) prev' th' ths' tr' last'.
+Proof.
+  intros Hrd. induction n as [|n IH]; intros rs lv prev th ths tr last Ht Hn Hc.
+  - exists tr, last. cbn [thr_pass skipn]. replace (lv + Z.of_nat 0) with lv by lia. destruct rs; reflexivity.
+  - destruct rs as [|r rest]; [cbn [length] in Hn; lia|]. destruct Ht as [-> Ht].
+    assert (Hlv : rn < res_at g lv * rd) by (apply Hc; lia).
+    cbn [closest_thr_loop thr_pass skipn].
+    change (match th with Some t => negb (t =? 0) && (t <? prev) && (res_at g lv <=? t) | None => false end)
+      with (thr_hit th prev (res_at g lv)).
+    assert (Hearly : match th with
+                     | Some t => if thr_hit th prev (res_at g lv)
+                                 then (if t * rd <? rn then Some (lv - 1) else if res_at g lv * rd <=? rn then Some lv else None)
+                                 else None
+                     | None => None end = None).
+    { destruct th as [t|]; [|reflexivity]. destruct (thr_hit (Some t) prev (res_at g lv)) eqn:E; [|reflexivity].
+      cbn [thr_hit] in E. replace (t * rd <? rn) with false by (symmetry; nia).
+      replace (res_at g lv * rd <=? rn) with false by (symmetry; lia). reflexivity. }
+    rewrite Hearly.
+    replace (match tr with Some _ => res_at g lv * rd <? rn | None => false end) with false
+      by (destruct tr; [symmetry; lia|reflexivity]).
+    set (st := if thr_hit th prev (res_at g lv) then match ths with [] => (None, []) | t' :: r' => (Some t', r') end else (th, ths)).
+    change (if thr_hit th prev (res_at g lv) then thr_pop ths else (th, ths)) with st.
+    destruct st as [th1 ths1].
+    destruct (IH rest (lv + 1) (res_at g lv) th1 ths1
+                 (if res_at g lv * rd * sf_d g <=? rn * sf_n g then Some lv else tr) lv Ht
+                 ltac:(cbn [length] in Hn; lia) ltac:(intros j Hj; apply Hc; lia)) as (tr' & last' & IHe).
+    exists tr', last'. rewrite IHe. replace (lv + 1 + Z.of_nat n) with (lv + Z.of_nat (S n)) by lia. reflexivity.
+Qed.
+
+(* at a level where the current threshold is hit and the request is not finer than the level, the threshold decides *)
+Lemma closest_thr_loop_decide g rn rd r rest lv prev t ths tr last :
+  thr_hit (Some t) prev r = true -> r * rd <= rn ->
+  closest_thr_loop g rn rd (r :: rest) lv prev (Some t) ths tr last = if t * rd <? rn then lv - 1 else lv.
+Proof.
+  intros Hh Hr. cbn [closest_thr_loop]. cbn [thr_hit] in Hh. rewrite Hh.
+  destruct (t * rd <? rn); [reflexivity|]. replace (r * rd <=? rn) with true by (symmetry; lia). reflexivity.
+Qed.
+
+Lemma skipn_res_tail g : forall n rs lv, res_tail g lv rs -> res_tail g (lv + Z.of_nat n) (skipn n rs).
+Proof.
+  induction n as [|n IH]; intros rs lv Ht.
+  - replace (lv + Z.of_nat 0) with lv by lia. exact Ht.
+  - destruct rs as [|r rest]; [exact I|]. destruct Ht as [_ Ht]. cbn [skipn].
+    replace (lv + Z.of_nat (S n)) with (lv + 1 + Z.of_nat n) by lia. apply IH. exact Ht.
+Qed.
+
+(* General switch rule for any list of thresholds: take the threshold state (thr_pass) that the thresholds are in after
+   levels 0 .. k-1; if its current threshold t lies between levels k-1 and k (prev > t >= r_k; prev = r_(k-1) for k >= 1)
+   then a request r_k <= res that is finer than all levels before k gets level k-1 when res > t and level k otherwise. *)
+Lemma closest_level_thr_general g ths rn rd k :
+  0 < rd -> 0 <= k < levels g ->
+  (forall j, 0 <= j < k -> rn < res_at g j * rd) -> res_at g k * rd <= rn ->
+  let '(th0, ths0) := thr_init (res_at g 0) (rev ths) in
+  let '(th, _, prev) := thr_pass (ress g) (res_at g 0) th0 ths0 (Z.to_nat k) in
+  forall t, th = Some t -> thr_hit (Some t) prev (res_at g k) = true ->
+  closest_level_thr g ths rn rd = if t * rd <? rn then k - 1 else k.
+Proof.
+  intros Hrd Hk Hc Hr. unfold closest_level_thr. destruct (thr_init (res_at g 0) (rev ths)) as [th0 ths0].
+  destruct (closest_thr_loop_pass g rn rd Hrd (Z.to_nat k) (ress g) 0 (res_at g 0) th0 ths0 None (-1) (res_tail_all g)
+              ltac:(unfold levels in Hk; lia) ltac:(intros j Hj; apply Hc; lia)) as (tr' & last' & He).
+  rewrite He. clear He.
+  destruct (thr_pass (ress g) (res_at g 0) th0 ths0 (Z.to_nat k)) as [[th ths'] prev].
+  intros t -> Hh.
+  pose proof (skipn_res_tail g (Z.to_nat k) (ress g) 0 (res_tail_all g)) as Hs.
+  replace (0 + Z.of_nat (Z.to_nat k)) with k in * by lia.
+  destruct (skipn (Z.to_nat k) (ress g)) as [|r rest] eqn:Es.
+  - exfalso. assert (length (skipn (Z.to_nat k) (ress g)) = 0%nat) by (rewrite Es; reflexivity).
+    rewrite skipn_length in H. unfold levels in Hk. lia.
+  - destruct Hs as [-> _]. apply closest_thr_loop_decide; assumption.
+Qed.
+
+(* three thresholds on ex_grid (100, 50, 20): 300 is above the first level (skipped), 70 switches between levels 0 and 1,
+   30 between levels 1 and 2 *)
+Example ex_thresholds :
+  closest_level_thr ex_grid [30; 70; 300] 75 1 = 0 /\ closest_level_thr ex_grid [30; 70; 300] 70 1 = 1 /\
+  closest_level_thr ex_grid [30; 70; 300] 31 1 = 1 /\ closest_level_thr ex_grid [30; 70; 300] 30 1 = 2 /\
+  closest_level ex_grid 31 1 = 2.
+Proof. repeat split; reflexivity. Qed.
+Example ex_thresholds_general : closest_level_thr ex_grid [30; 70; 300] 31 1 = if 30 * 1 <? 31 then 2 - 1 else 2.
+Proof.
+  pose proof (closest_level_thr_general ex_grid [30; 70; 300] 31 1 2 ltac:(lia) ltac:(vm_compute; split; congruence)) as H.
+  assert (Hc : forall j, 0 <= j < 2 -> 31 < res_at ex_grid j * 1).
+  { intros j Hj. assert (j = 0 \/ j = 1) as [-> | ->] by lia; vm_compute; reflexivity. }
+  specialize (H Hc ltac:(vm_compute; congruence)). vm_compute in H. exact (H 30 eq_refl eq_refl).
+Qed.
